@@ -22,6 +22,10 @@ OWN = {
   "Lean theorems for every number of threads, every assignment of operation sequences (grammar of the property) and every sequentially consistent schedule, about a hand-written small-step model of mtCallOnce and of the shared generator of rng.c: mutual exclusion, lock discipline, initialiser runs exactly once and is visible to every returning caller, no data race (conflicting accesses are ordered by the mutex, by the once-gate, or both atomic), balanced reference count, no use after release, every request filled and no two output blocks equal. The model is tied to the source by (a) the shared-access table regenerated from rng.c/mt.c on every run, which must equal the model's table (kernel-checked), and (b) sequential refinement against the real functions. Partial: weak-memory reorderings are not exhibited by an SC model.",
   "Trusted: Lean kernel (axioms propext/Quot.sound at most); xlate/x_c18_access.py; harness/c18.c. Modelled, not verified: pthread mutex = mutual exclusion, __sync builtins = atomic RMW, brngCTRStepR = 'consume next CTR positions' (distinct keys per epoch is a cryptographic assumption), SC memory model; not modelled: exit-time rngDestroy, counter overflow at 2^64 references. Real-thread ThreadSanitizer runs are supporting evidence and the search oracle, not the proof.",
   "Lean 4 proof (invariants over an interleaving semantics) + regenerated access table + sequential differential", "DESIGN.md §3 C18"),
+ "C19": chk("C19",
+  "Lean: parametricity corollaries (word size, SAFE/FAST edition, octets per word) re-exported from the areas' model = specification theorems, so a statement about one configuration of a MODEL is a statement about the others. Tie: the identical op streams of the other areas (currently C01 belt, C03 bash/brng/botp, C05 arithmetic) are replayed against differently built copies of the library (64-bit words: ASan release, BUILD_FAST, -O0; 32-bit words; bash-f BASH_32/SSE2/AVX2/AVX-512 as far as the CPU has them; thorough adds assertion-enabled, -O2/NDEBUG, plain release, 32-bit fast/debug) and each configuration must agree with the area's Lean driver, with the reference configuration, and (octet-level ops) across word sizes. Partial: configurations are compared on the generated streams (sampling of inputs); optimisation levels, NDEBUG and SIMD variants are not modelled.",
+  "Trusted: Lean kernel; the area theorems C19 re-exports; harnesses and generators of the replayed areas; the C compiler. Not run (listed in the evidence as skipped, never as passed): B_PER_S = 32 (-m32 does not link in this image; 32-bit WORDS are obtained with -U__SIZEOF_INT128__), BASH_NEON, AVX variants the CPU lacks.",
+  "Lean 4 parametricity corollaries + multi-configuration differential replay", "DESIGN.md §3 C19, §8"),
 }
 PENDING = "check under construction (Lean model + correspondence not yet registered); see DESIGN.md §3 for the plan"
 
